@@ -246,6 +246,8 @@ class DeadRemoval(object):
         return useful
 
     def is_tracked_var(self, lval, variable):
+        if lval == variable:
+            return True
         new_lval = self.expr_to_original_expr.get(lval, lval)
         return new_lval == variable
 
